@@ -34,14 +34,22 @@ import evalgen
 import evalref
 
 ID = 'C04'
-LEAN_MODULES = ['Yaql.Props.C04']
+LEAN_MODULES = ['Yaql.Props.C04', 'Yaql.Props.C04Gen']
 REQUIRED_THEOREMS = ['Yaql.Props.C04.' + n for n in (
     'frame frame_root sibling_independence shadowing shadowing_let unknown_null dollar_alias lambda_binds_innermost '
     'lambda_dollar get_argFrame with_numbering closure_lexical closure_lexical_args ucall_eq no_leak_arg no_leak_lambda '
     'no_leak_callee member_maps fuel_mono empty_frame_invisible let_names_verbatim let_other_name kwarg_names_verbatim '
     'def_names_verbatim normName_inj_plain def_call_pure def_call_own_args def_calls_independent def_then_call '
     'def_identity_faithful def_identity_injective select_member_elem member_elementwise memberV_nested host_var_visible '
-    'host_var_topmost doc_position_irrelevant dollar_from_any_depth runHost_nil').split()]
+    'host_var_topmost doc_position_irrelevant dollar_from_any_depth runHost_nil toDict_by_keyword lambda_by_keyword '
+    'select_by_keyword noOverload_raises positional_id').split()] + [
+        'Yaql.Props.C04Gen.kwParams_live', 'Yaql.Props.C04Gen.kwParams_total', 'Yaql.Props.C04Gen.kwParams_camel']
+
+
+def generate():
+    import pyfacts
+    return pyfacts.run(['KwParams'])['KwParams']
+
 TRUSTED = ['harness/evalref.py (plain-Python transcription of the language reference, second opinion for every case)',
            'harness/evalgen.py: the renderer AST -> yaql text (every generated text is parsed back by the engine under '
            'test and compared with the AST that goes to the model)']
@@ -559,6 +567,16 @@ PROBES = [
     ('dynamic instead of lexical closure', "[1, 2, 3].select(let(k => $) -> def(f, $k * 10) -> f())", [10, 20, 30]),
     ('dynamic instead of lexical closure', "[[1, 2], [3]].select(def(n, $.len()) -> $.select($ * n()))", [[2, 4], [3]]),
     ('wrong $', "[1, 2].select(def(f, $) -> [f(7), f()])", [[7, 1], [7, 2]]),
+    # a lambda passed BY KEYWORD is a lambda: `$` is the element it is applied to
+    ('wrong $', "[[a, 1], [b, 2]].toDict(keySelector => $[0], valueSelector => $[1])", {'a': 1, 'b': 2}),
+    ('wrong $', "[[a, 1], [b, 2]].toDict(valueSelector => $[1], keySelector => $[0])", {'a': 1, 'b': 2}),
+    ('wrong $', "[[a, 1], [b, 2]].toDict($[0], valueSelector => $[1] + 1)", {'a': 2, 'b': 3}),
+    ('wrong $', "[[1, 2], [3]].select($.toDict(keySelector => $, valueSelector => $ * 10))", [{1: 10, 2: 20}, {3: 30}]),
+    ('wrong $', "[3, 4].select(selector => [$, $1])", [[3, 3], [4, 4]]),
+    ('wrong $', "let(k => 5) -> [1, 7].where(predicate => $ > $k)", [7]),
+    ('wrong $', "[3, 4].aggregate(selector => $1 * 10 + $2, seed => 0)", 34),
+    ('wrong $', "[1, 2].toDict(key_selector => $)", ('err', 'NoMatchingMethodException')),
+    ('wrong $', "[1, 2].select($, selector => $)", ('err', 'NoMatchingMethodException')),
 ]
 
 
@@ -777,7 +795,7 @@ def work(args):
     drv = common.Driver() if use_model else None
     out = dict(cases=[], failures=[], n=0, traces=0, outcome={}, errs={}, depth={}, size={}, types={}, constructs={},
                pairs={}, ood_ref=0, ood_model=0, parse_diff=[], sample=None, modes={}, names={}, known={}, values={},
-               entries={}, shapes={})
+               entries={}, shapes={}, kwargs={})
     try:
         batch = []
         for _ in range(n_cases):
@@ -799,6 +817,8 @@ def work(args):
                             for i in depths}))))
             for cls in member_shapes(ast, doc, env):
                 bump(out['shapes'], cls)
+            for cls in keyword_shapes(ast):
+                bump(out['kwargs'], cls)
             real, ref = info['real'], info['ref']
             out['n'] += 1
             if model is not None:
@@ -871,6 +891,26 @@ def member_shapes(ast, doc, env):
     for layer in (env or {}).get('layers', ()):
         for _, v in layer:
             data(v)
+    return out
+
+
+def keyword_shapes(ast):
+    """statistics: builtin methods called with keyword arguments"""
+    out = set()
+
+    def walk(e):
+        if e[0] == 'method' and e[4]:
+            names = evalgen.METHOD_PARAMS.get(e[2])
+            ok = names is not None and all(k[0] == 'kw' and k[1] in names for k, _ in e[4])
+            out.add('a builtin method called with keyword arguments')
+            out.add('... %s' % ('under the parameters\' names' if ok else 'under a name that is no parameter'))
+            if ok and any(k[1].lower() != k[1] for k, _ in e[4]):
+                out.add('... a multi-word (convention-translated) name')
+            if ok and any(v[0] not in ('lit', 'kw') for _, v in e[4]):
+                out.add('... a lambda / expression passed by keyword')
+        for c, _ in evalgen.children(e):
+            walk(c)
+    walk(ast)
     return out
 
 
@@ -947,7 +987,7 @@ def run(env, res):
         results = pool.map(work, jobs, chunksize=1)
     hist = dict(outcome={}, real_error_classes={}, ast_depth={}, ast_size={}, result_types={}, constructs={},
                 evaluation_history={}, names_by_class={}, known_finding_hits={}, value_situations={},
-                how_the_data_enters={}, member_access_shapes={})
+                how_the_data_enters={}, member_access_shapes={}, keyword_arguments={})
     pairs, ood_ref, ood_model, n, parse_diff = {}, 0, 0, 0, []
     for out in results:
         for sig, nt in out['cases']:
@@ -966,7 +1006,8 @@ def run(env, res):
                          (out['types'], hist['result_types']), (out['constructs'], hist['constructs']), (out['pairs'], pairs),
                          (out['modes'], hist['evaluation_history']), (out['names'], hist['names_by_class']),
                          (out['known'], hist['known_finding_hits']), (out['values'], hist['value_situations']),
-                         (out['entries'], hist['how_the_data_enters']), (out['shapes'], hist['member_access_shapes'])):
+                         (out['entries'], hist['how_the_data_enters']), (out['shapes'], hist['member_access_shapes']),
+                         (out['kwargs'], hist['keyword_arguments'])):
             for k, v in src.items():
                 dst[str(k)] = dst.get(str(k), 0) + v
     if parse_diff:
